@@ -521,7 +521,7 @@ def rule_r4(prog, res) -> None:
         else:
             res.violation("C01.R4", worker, ev.node, f"get_angle_radian returns (min, max) but tree.count receives elements ({unparse(lo.slice)}, {unparse(hi.slice)}) of it", key_extra="angle-order")
         g = lo.value
-        cos = kwarg(g, "cosmology")
+        cos = kwarg(g, "cosmology") or (g.args[1] if len(g.args) > 1 else None)  # get_angle_radian(redshift, cosmology)
         root = g.func.value
         while isinstance(root, ast.Attribute):
             root = root.value
@@ -657,13 +657,71 @@ def _fold_compute_angle(prog, fi, env: dict, members: dict, selfcls=None):
 # ----------------------------------------------------------------------------- R5
 
 
-def _side(e: ast.AST) -> set[str]:
+def _side(e: ast.AST, env: dict | None = None) -> set[str]:
+    """the catalog side(s) an expression belongs to: by the 1 / 2 suffix of the names and attributes in it, and — for a
+    local without such a suffix — by the side of what was assigned to it (env, see _side_env)"""
     out = set()
     for x in ast.walk(e):
         nm = x.id if isinstance(x, ast.Name) else x.attr if isinstance(x, ast.Attribute) else None
         if nm and re.search(r"[A-Za-z_](1|2)$", nm):
             out.add(nm[-1])
+        elif env and isinstance(x, ast.Name) and x.id in env:
+            out |= env[x.id]
     return out
+
+
+def _side_env(fn: ast.AST) -> dict:
+    """local name -> side(s) of the values it is bound to (assignments, loop targets paired with zip / enumerate
+    positionally), for locals whose own name carries no side suffix; a few rounds reach the fixpoint"""
+    env: dict = {}
+
+    def named(n: str) -> bool:
+        return bool(re.search(r"[A-Za-z_](1|2)$", n))
+
+    def bind(t, v) -> None:
+        if isinstance(t, ast.Starred):
+            t = t.value
+        if isinstance(v, ast.Call) and isinstance(v.func, ast.Name) and v.func.id == "enumerate" and v.args and isinstance(t, (ast.Tuple, ast.List)) and len(t.elts) == 2:
+            bind(t.elts[1], v.args[0])
+            return
+        if isinstance(v, ast.Call) and isinstance(v.func, ast.Name) and v.func.id == "zip" and isinstance(t, (ast.Tuple, ast.List)) and len(t.elts) == len(v.args):
+            for a, b in zip(t.elts, v.args):
+                bind(a, b)
+            return
+        if isinstance(t, (ast.Tuple, ast.List)) and isinstance(v, (ast.Tuple, ast.List)) and len(t.elts) == len(v.elts):
+            for a, b in zip(t.elts, v.elts):
+                bind(a, b)
+            return
+        sv = _side(v, env)
+        for x in ast.walk(t):
+            if isinstance(x, ast.Name) and not named(x.id) and sv and len(sv) == 1:
+                env[x.id] = env.get(x.id, set()) | sv
+
+    for _ in range(3):
+        for x in ast.walk(fn):
+            if isinstance(x, ast.Assign):
+                for t in x.targets:
+                    bind(t, x.value)
+            elif isinstance(x, ast.AnnAssign) and x.value is not None:
+                bind(x.target, x.value)
+            elif isinstance(x, (ast.For, ast.comprehension)):
+                bind(x.target, x.iter)
+            elif isinstance(x, ast.NamedExpr):
+                bind(x.target, x.value)
+    return {k: v for k, v in env.items() if len(v) == 1}
+
+
+def _worker_outputs(fn: ast.AST) -> list[str]:
+    """the arrays the worker allocates (np.empty / zeros / …) and hands to the constructor of its result"""
+    outs = []
+    for x in walk_no_nested(fn):
+        if isinstance(x, ast.Return) and isinstance(x.value, ast.Call):
+            for a in list(x.value.args) + [k.value for k in x.value.keywords]:
+                if isinstance(a, ast.Name):
+                    vals = [v for v in all_def_values(fn, a.id) if v is not None]
+                    if vals and all(isinstance(v, ast.Call) and (dotted(v.func) or "").split(".")[-1] in ("empty", "zeros", "full", "ones", "empty_like", "zeros_like") for v in vals) and a.id not in outs:
+                        outs.append(a.id)
+    return outs
 
 
 def rule_r5(prog, res) -> None:
@@ -677,8 +735,14 @@ def rule_r5(prog, res) -> None:
     lp = loops[0]
     idx = lp.target.elts[0].id
     n_ok = 0
+    # the per-bin arrays of the worker, by role: the arrays it allocates and hands to its result, and every array it
+    # subscripts with the loop's bin index
+    per_bin = set(_worker_outputs(fn))
     for x in ast.walk(lp):
-        if isinstance(x, ast.Subscript) and isinstance(x.value, ast.Name) and x.value.id in ("zmids", "binned_counts", "sum_weights1", "sum_weights2"):
+        if isinstance(x, ast.Subscript) and isinstance(x.value, ast.Name) and any(isinstance(n, ast.Name) and n.id == idx for n in ast.walk(x.slice)):
+            per_bin.add(x.value.id)
+    for x in ast.walk(lp):
+        if isinstance(x, ast.Subscript) and isinstance(x.value, ast.Name) and x.value.id in per_bin:
             names = {n.id for n in ast.walk(x.slice) if isinstance(n, ast.Name)}
             consts = [n for n in ast.walk(x.slice) if isinstance(n, ast.Constant) and isinstance(n.value, int)]
             if names != {idx} or consts or any(isinstance(n, ast.BinOp) for n in ast.walk(x.slice)):
@@ -691,7 +755,8 @@ def rule_r5(prog, res) -> None:
         raise AnalysisError("C01.R5: fewer than 4 per-bin subscripts in the worker")
     # counts stored in column i of all scales
     for x in ast.walk(lp):
-        if isinstance(x, ast.Assign) and isinstance(x.targets[0], ast.Subscript) and isinstance(x.targets[0].value, ast.Name) and x.targets[0].value.id == "binned_counts":
+        # (the array that receives the tree counts: two-dimensional, scales x bins)
+        if isinstance(x, ast.Assign) and isinstance(x.targets[0], ast.Subscript) and isinstance(x.targets[0].value, ast.Name) and x.targets[0].value.id in per_bin and any(isinstance(y, ast.Call) and isinstance(y.func, ast.Attribute) and y.func.attr == "count" for y in ast.walk(x.value)) | isinstance(x.targets[0].slice, ast.Tuple):
             sl = x.targets[0].slice
             if isinstance(sl, ast.Tuple) and isinstance(sl.elts[0], ast.Slice) and isinstance(sl.elts[1], ast.Name):
                 res.ok("C01.R5", res.site(worker, unparse(x.targets[0])), "counts of all scales stored in the column of this bin")
@@ -702,14 +767,7 @@ def rule_r5(prog, res) -> None:
     from ..cfg import cfg_of as _cfg_of
 
     wcfg = _cfg_of(fn)
-    outs = []
-    for x in walk_no_nested(fn):
-        if isinstance(x, ast.Return) and isinstance(x.value, ast.Call):
-            for a in list(x.value.args) + [k.value for k in x.value.keywords]:
-                if isinstance(a, ast.Name):
-                    vals = [v for v in all_def_values(fn, a.id) if v is not None]
-                    if vals and all(isinstance(v, ast.Call) and (dotted(v.func) or "").split(".")[-1] in ("empty", "zeros", "full", "ones", "empty_like", "zeros_like") for v in vals):
-                        outs.append(a.id)
+    outs = _worker_outputs(fn)
     if len(outs) < 3:
         raise AnalysisError(f"C01.R5: per-bin output arrays of the worker not recognised ({outs})")
     hdr = [n_ for n_ in wcfg.nodes if n_.kind == "for" and n_.ast is lp]
@@ -728,18 +786,19 @@ def rule_r5(prog, res) -> None:
     # (every function of the measurement module: the bookkeeping may live in helpers or in a collector class)
     for f in [g_ for g_ in worker.module.all_funcs]:
         res.touch(f)
+        senv = _side_env(f.node)
         for x in walk_no_nested(f.node):
             if isinstance(x, ast.Assign) and len(x.targets) == 1:
-                st, sv = _side(x.targets[0]), _side(x.value)
+                st, sv = _side(x.targets[0]), _side(x.value, senv)
                 if isinstance(x.targets[0], ast.Name) and isinstance(x.value, ast.Name):
                     continue  # plain aliasing (autocorrelation: catalog2 = catalog1)
                 if st and sv:
                     checked += 1
                     if st != sv:
                         res.violation("C01.R5", f, x, f"side mismatch in `{norm_stmt(x)}`: data of catalog {sorted(sv)} are stored for catalog {sorted(st)}", key_extra=f"side-assign-{unparse(x.targets[0])[:30]}")
-            if isinstance(x, ast.Subscript) and _side(x.value) and _side(x.slice) and isinstance(x.value, ast.Name):
+            if isinstance(x, ast.Subscript) and _side(x.value, senv) and _side(x.slice, senv) and isinstance(x.value, ast.Name):
                 checked += 1
-                if _side(x.value) != _side(x.slice):
+                if _side(x.value, senv) != _side(x.slice, senv):
                     res.violation("C01.R5", f, x, f"side mismatch in `{unparse(x)}`", key_extra=f"side-subscript-{unparse(x)[:30]}")
             if isinstance(x, ast.Call):
                 tg = prog.resolve_call(f, x)
@@ -747,16 +806,16 @@ def rule_r5(prog, res) -> None:
                     if ci.is_dataclass:
                         fields = list(ci.class_ann)
                         for fld, a in list(zip(fields, x.args)) + [(k_.arg, k_.value) for k_ in x.keywords if k_.arg in fields]:
-                            sf, sa = _side(ast.Name(id=fld, ctx=ast.Load())), _side(a)
+                            sf, sa = _side(ast.Name(id=fld, ctx=ast.Load())), _side(a, senv)
                             if sf and sa:
                                 checked += 1
                                 if sf != sa:
                                     res.violation("C01.R5", f, x, f"field {fld} of {ci.name} receives {unparse(a)}", key_extra=f"side-field-{ci.name}-{fld}")
                 if isinstance(x.func, ast.Attribute) and x.func.attr == "set_patch_pair":
                     checked += 1  # argument order is decided on the substituted call below (symbolic store)
-                if isinstance(x.func, ast.Attribute) and x.func.attr == "count" and isinstance(x.func.value, ast.Name) and _side(x.func.value):
+                if isinstance(x.func, ast.Attribute) and x.func.attr == "count" and isinstance(x.func.value, ast.Name) and _side(x.func.value, senv):
                     checked += 1
-                    if not (x.args and _side(x.args[0]) and _side(x.args[0]) != _side(x.func.value)):
+                    if not (x.args and _side(x.args[0], senv) and _side(x.args[0], senv) != _side(x.func.value, senv)):
                         res.violation("C01.R5", f, x, "a tree is counted against a tree of the same catalog", key_extra="tree-same-side")
     if checked < 10:
         raise AnalysisError(f"C01.R5: only {checked} side-tagged constructs found, minimum 10")
